@@ -82,6 +82,10 @@ class Spec:
             yield from self.info["target"]().walk(seen)
 
 
+# how many generated modules ran under each annotation style (the worker adds these to the shard's monitor counters)
+STYLE_COUNTS = {"modules_postponed_annotations": 0, "modules_evaluated_annotations": 0}
+
+
 class Program:
     """A synthesised module. Definitions are appended as generated; build() execs them."""
 
@@ -126,6 +130,7 @@ class Program:
 
         linecache.cache[mod.__file__] = (len(src), None, src.splitlines(True), mod.__file__)
         exec(compile(src, mod.__file__, "exec", dont_inherit=True), mod.__dict__)
+        STYLE_COUNTS["modules_postponed_annotations" if self.future else "modules_evaluated_annotations"] += 1
         self.module = mod
         for s in self.specs:
             if s.t is None:
